@@ -1,7 +1,8 @@
 /-
 Model of the function-code check of `MemorizedFunc` (joblib/memory.py) — what decides whether the
 entries stored under a function identifier may be served to the function object at hand
-(property C12) — for ONE function identifier `func_id` in one cache directory.
+(property C12) — for ONE function identifier `func_id`, cached in ANY NUMBER of cache locations
+(several `Memory` objects) by the processes that follow one another.
 
 Python → Lean
 * a function object (`id(func)`; a new one for every executed `def`)      : `Obj = Nat`
@@ -11,46 +12,68 @@ Python → Lean
   objects are immutable; `hash(func.__code__)` (which covers `co_firstlineno`) is identified with
   the pair, so two code objects are told apart even when their texts agree   : `CodeId = Nat × Src`
 * `is_named_callable` of `_write_func_code` (false for lambdas)           : `named : Bool`
+* a cache location: a DIRECTORY `<dir>/joblib` (`Loc`, field `dir`), and the STRING under which a
+  `Memory` object addresses it, `store_backend.location` (`Loc`, field `key`).  `Memory(location=p)`
+  keeps `os.path.join(p, "joblib")` verbatim: `Memory(d)` and `Memory(d + "/.")` are two `key`s of one
+  `dir`.  By convention the canonical spelling of directory `d` is the key `d`.  Two `Memory`
+  objects built on the same string are the same location (same `key`, same `dir`).
 * the function objects alive in the current process, each with its current `__code__`
                                                                           : `State.live`
-* the `MemorizedFunc` objects (`memory.cache(f)`; several may wrap one function), each with its
-  `_func_code_id` and the source part of `_func_code_info`               : `State.wraps`
-* `_FUNCTION_HASHES[func] = (id(func), hash(func), hash(func.__code__))`   : `State.table`
-* `_FUNC_CODE_WRITERS[(location, func_id)]`: the function hash that last wrote `func_code.py` in
-  this process                                                            : `State.writer`
-* `<location>/joblib/<func_id>/func_code.py`                              : `State.code : CodeFile`
+* the `MemorizedFunc` objects (`memory.cache(f)` of one of the `Memory` objects; several may wrap
+  one function, at one location or at several), each with its function, its
+  `store_backend.location`, the directory that denotes, its `_func_code_id` and the source part of
+  `_func_code_info`                                                        : `State.wraps`, `Wrapper`
+* `_FUNCTION_HASHES[func] = (id(func), hash(func), hash(func.__code__))`, process-global, keyed by
+  the function object ALONE                                               : `State.table`
+* `_FUNC_CODE_WRITERS[writer_key]`, process-global: the function hash that last wrote
+  `func_code.py` under that key in this process; `writer_key = (store_backend.location, func_id)`
+  (one `func_id` here, so: the location string)                           : `State.writers`, `wkey`
+* per directory: `<dir>/joblib/<func_id>/func_code.py`                    : `Dir.code : CodeFile`
   `missing` (no such file), `unreadable` (it does not read back: `extract_first_line` /
   the utf-8 decoder raise `ValueError` — a file cut inside its `# first line:` header or inside a
   multi-byte character), `other` (readable, but the text is no function's source: cut anywhere
   else), `ok s` (the source `s`).  The file starts with `# first line: N`; `extract_first_line`
   strips it and `_check_previous_func_code` compares ONLY the source text, EXACTLY
   (`old_func_code == func_code`); the line number serves the collision warnings alone.
-* `<func_id>/<args_id>/output.pkl`                                        : `State.entries`
+  `<dir>/joblib/<func_id>/<args_id>/output.pkl`                           : `Dir.entries`
   (argument ↦ stored value; the argument key itself is C02/C06's business: here `Nat`)
+                                                                          : `State.disk`, `dirAt`
 * `MemorizedFunc.func_code_info`            → `funcCodeInfo`
 * `MemorizedFunc._hash_func`                → `(o, cur)`
-* `MemorizedFunc._write_func_code`          → `writeFuncCode`
+* `MemorizedFunc._write_func_code`          → `writeFuncCode` (`_FUNC_CODE_WRITERS.pop(writer_key)`,
+  `store_cached_func_code`, then both tables for a named callable)
 * `MemorizedFunc.clear`                     → `clearWrite` (`clear_path`, `func_code_info`,
   `_write_func_code`)
 * `MemorizedFunc._check_previous_func_code` → `checkPrevious` (`shortcut` = the `_FUNCTION_HASHES`
   branch; `IOError` → write; `ValueError` → clear; differing text → clear)
 * `MemorizedFunc._is_in_cache_and_valid`    → `isInCache` (no validation callback here)
-* `_cached_call` / `check_call_in_cache` / `MemorizedFunc.clear` / `Memory.clear` → cases of `step`
+* `_cached_call` / `check_call_in_cache` / `MemorizedFunc.clear` → cases of `step`
+* `Memory.clear` → `Op.clearAll d`: `store_backend.clear()` empties THAT directory;
+  `_FUNCTION_HASHES.clear()` and `_FUNC_CODE_WRITERS.clear()` empty the process-global tables (for
+  every location)
+* `Memory.cache(f)` → `Op.wrap` (and the wrapper `Op.define` creates): a new `MemorizedFunc` on the
+  `Memory` object's store backend; it writes nothing but the function's directory
 * `f.__code__ = g.__code__`                 → `Op.swap`
-* a fault on `func_code.py` (writer killed, file deleted)                 → `Op.damage`
-* starting a fresh process: `live`, `wraps`, `table`, `writer` emptied, the disk kept.
+* a fault on `func_code.py` of one directory (writer killed, file deleted)  → `Op.damage`
+* starting a fresh process: `live`, `wraps`, `table`, `writers` emptied, every directory kept.
 * `sem k a`: the value the code with source `k` computes on argument `a` (a parameter).
 
 Versions of the code, selected by `Cfg`:
 * `writerCheck`  — fixes/F10-same-name-redefinition.diff (committed): the shortcut also demands
   that this very function hash last wrote `func_code.py`; `false` = the pinned tree (F10);
-* `infoIdUpdate` — fixes/F38-code-swap.diff: `func_code_info` records the code object its cached
-  source belongs to; `false` = `_func_code_id` keeps the FIRST code object ever seen, so that
-  swapping back to it revives a stale cached source (F38).
+* `infoIdUpdate` — fixes/F38-code-swap.diff (committed): `func_code_info` records the code object
+  its cached source belongs to; `false` = `_func_code_id` keeps the FIRST code object ever seen, so
+  that swapping back to it revives a stale cached source (F38);
+* `writerKeyHasLocation` — `true` = the code as it is; `false` = a regression a reviewer seeded:
+  `writer_key = self.func_id`, one writer slot for all locations;
+* `writerKeyResolved` — fixes/F46-writer-key-realpath.diff (candidate, NOT in the tree): the
+  writer key is the resolved directory (`os.path.realpath`), not the string; `false` = the code as
+  it is (F46: two spellings of one directory have two writer slots).
 
 Not modelled: the collision warnings; weak-reference removal of dead functions from
 `_FUNCTION_HASHES` (objects stay alive until the process ends); concurrent processes (C11);
-defaults / closures of a function (they are not part of its code object).
+defaults / closures of a function (they are not part of its code object); one string denoting two
+directories in one process (a relative location and `os.chdir`).
 Import-free apart from the dict helpers of `FilterArgs`; total, computable.
 -/
 import JoblibModel.FilterArgs
@@ -60,14 +83,20 @@ open JoblibModel.FilterArgs (dget dset)
 structure Cfg where
   writerCheck : Bool
   infoIdUpdate : Bool
+  writerKeyHasLocation : Bool
+  writerKeyResolved : Bool
 deriving DecidableEq, Repr
 
-/-- The repaired code. -/
-def Cfg.fixed : Cfg := ⟨true, true⟩
+/-- The code as it is in the tree (F10 and F38 repaired). -/
+def Cfg.fixed : Cfg := ⟨true, true, true, false⟩
+
+/-- … with the candidate repair of F46 (writer key = the resolved directory). -/
+def Cfg.resolved : Cfg := ⟨true, true, true, true⟩
 
 abbrev Obj := Nat
 abbrev Src := Nat
 abbrev CodeId := Nat × Src
+abbrev Loc := Nat
 
 inductive CodeFile where
   | missing
@@ -86,21 +115,37 @@ deriving DecidableEq, Repr
 /-- `_func_code_id` and the source in `_func_code_info` of one `MemorizedFunc`. -/
 abbrev InfoCache := Option CodeId × Option Src
 
-structure State (R : Type) where
-  live : List (Obj × (CodeId × Bool)) := []
-  wraps : List (Nat × (Obj × InfoCache)) := []
-  table : List (Obj × CodeId) := []
-  writer : Option (Obj × CodeId) := none
+/-- One `MemorizedFunc`: its function, `store_backend.location` (`key`), the directory that string
+denotes (`dir`), and its `func_code_info` cache. -/
+structure Wrapper where
+  func : Obj
+  key : Loc
+  dir : Loc
+  ic : InfoCache
+deriving DecidableEq, Repr
+
+/-- `<dir>/joblib/<func_id>/`: `func_code.py` and the entries beside it. -/
+structure Dir (R : Type) where
   code : CodeFile := .missing
   entries : List (Nat × R) := []
 deriving Repr
 
+structure State (R : Type) where
+  live : List (Obj × (CodeId × Bool)) := []
+  wraps : List (Nat × Wrapper) := []
+  table : List (Obj × CodeId) := []
+  writers : List (Loc × (Obj × CodeId)) := []
+  disk : List (Loc × Dir R) := []
+deriving Repr
+
 inductive Op where
   /-- a `def` (or `lambda`, `named = false`) is executed: a new function object `o` whose code object
-  `(o, k)` has source `k`, wrapped with `memory.cache` (wrapper `o`) -/
-  | define (o : Obj) (k : Src) (named : Bool)
-  /-- `memory.cache(f_o)` once more: another `MemorizedFunc` `w` on the same function -/
-  | wrap (w : Nat) (o : Obj)
+  `(o, k)` has source `k`, wrapped with `memory.cache` (wrapper `o`) of the `Memory` object on
+  directory `loc` under its canonical spelling -/
+  | define (o : Obj) (k : Src) (named : Bool) (loc : Loc)
+  /-- `memory.cache(f_o)` once more: another `MemorizedFunc` `w` on the same function, of a `Memory`
+  object whose `store_backend.location` is the string `key`, denoting directory `dir` -/
+  | wrap (w : Nat) (o : Obj) (key : Loc) (dir : Loc)
   /-- `f_o.__code__ = c` -/
   | swap (o : Obj) (c : CodeId)
   /-- the cached function `w` is called with argument `a` -/
@@ -109,11 +154,11 @@ inductive Op where
   | check (w : Nat) (a : Nat)
   /-- `MemorizedFunc.clear()` -/
   | clearFn (w : Nat)
-  /-- `Memory.clear()` -/
-  | clearAll
-  /-- `func_code.py` is truncated / deleted (no effect when there is no such file) -/
-  | damage (d : Damage)
-  /-- the process ends, a new one starts on the same cache directory -/
+  /-- `Memory.clear()` of a `Memory` object on directory `dir` -/
+  | clearAll (dir : Loc)
+  /-- `func_code.py` of directory `dir` is truncated / deleted (no effect when there is no such file) -/
+  | damage (dir : Loc) (d : Damage)
+  /-- the process ends, a new one starts on the same cache directories -/
   | fresh
 deriving DecidableEq, Repr
 
@@ -127,15 +172,38 @@ deriving DecidableEq, Repr
 
 variable {R : Type}
 
-/-- What a wrapper resolves to: its function, the function's current code object, `named`, and the
-wrapper's cached source. -/
-def lookup (st : State R) (w : Nat) : Option (Obj × CodeId × Bool × InfoCache) :=
+/-- `del d[k]` for every occurrence of `k` (`dict.pop(k, None)`). -/
+def ddel {ν : Type} (k : Nat) : List (Nat × ν) → List (Nat × ν)
+  | [] => []
+  | (k', v) :: r => if k' = k then ddel k r else (k', v) :: ddel k r
+
+/-- The function's directory at cache directory `d` (nothing there yet: no file, no entry). -/
+def dirAt (st : State R) (d : Loc) : Dir R := (dget d st.disk).getD {}
+
+/-- `writer_key` of a `MemorizedFunc` whose `store_backend.location` is the string `key`, denoting the
+directory `dir` (the `func_id` component is the same for all: one function identifier). -/
+def wkey (cfg : Cfg) (key dir : Loc) : Loc :=
+  if cfg.writerKeyHasLocation then (if cfg.writerKeyResolved then dir else key) else 0
+
+/-- What a wrapper resolves to: the wrapper `w` itself, its function `o`, the function's current code
+object, `named`, the wrapper's location (string and directory) and its cached source. -/
+structure Target where
+  w : Nat
+  o : Obj
+  cur : CodeId
+  named : Bool
+  key : Loc
+  dir : Loc
+  ic : InfoCache
+deriving DecidableEq, Repr
+
+def lookup (st : State R) (w : Nat) : Option Target :=
   match dget w st.wraps with
   | none => none
-  | some (o, ic) =>
-    match dget o st.live with
+  | some W =>
+    match dget W.func st.live with
     | none => none
-    | some (cur, named) => some (o, cur, named, ic)
+    | some (cur, named) => some ⟨w, W.func, cur, named, W.key, W.dir, W.ic⟩
 
 /-- The `func_code_info` property: the source it returns and the cache afterwards. -/
 def funcCodeInfo (cfg : Cfg) (cur : CodeId) (ic : InfoCache) : Src × InfoCache :=
@@ -149,42 +217,48 @@ def funcCodeInfo (cfg : Cfg) (cur : CodeId) (ic : InfoCache) : Src × InfoCache 
   | some s => (s, ic')
   | none => (cur.2, (ic'.1, some cur.2))                          -- `get_func_code(self.func)`
 
-/-- `_write_func_code`: store the source, register the function hash (named callables only) and
-remember it as the writer of `func_code.py`. -/
-def writeFuncCode (st : State R) (o : Obj) (cur : CodeId) (src : Src) (named : Bool) : State R :=
-  { st with
-    code := .ok src
-    table := if named then dset o cur st.table else st.table
-    writer := if named then some (o, cur) else none }
+/-- The wrapper of `t` with its `func_code_info` cache replaced. -/
+def Target.wrapper (t : Target) (ic : InfoCache) : Wrapper := ⟨t.o, t.key, t.dir, ic⟩
 
-/-- `MemorizedFunc.clear`: wipe the function's directory, write the code again. -/
-def clearWrite (st : State R) (o : Obj) (cur : CodeId) (src : Src) (named : Bool) : State R :=
-  writeFuncCode { st with entries := [] } o cur src named
+/-- `_write_func_code`: pop the writer entry, store the source in THIS wrapper's directory, register
+the function hash (named callables only) and remember it as the writer under `writer_key`. -/
+def writeFuncCode (cfg : Cfg) (st : State R) (t : Target) (src : Src) : State R :=
+  { st with
+    disk := dset t.dir { dirAt st t.dir with code := .ok src } st.disk
+    table := if t.named then dset t.o t.cur st.table else st.table
+    writers :=
+      if t.named then dset (wkey cfg t.key t.dir) (t.o, t.cur) st.writers
+      else ddel (wkey cfg t.key t.dir) st.writers }
+
+/-- `MemorizedFunc.clear`: wipe the function's directory at this wrapper's location (`clear_path`),
+write the code again. -/
+def clearWrite (cfg : Cfg) (st : State R) (t : Target) (src : Src) : State R :=
+  writeFuncCode cfg { st with disk := dset t.dir {} st.disk } t src
 
 /-- The in-memory branch of `_check_previous_func_code`. -/
-def shortcut (cfg : Cfg) (st : State R) (o : Obj) (cur : CodeId) : Bool :=
-  match dget o st.table with
-  | some h => decide (h = cur) && (!cfg.writerCheck || decide (st.writer = some (o, cur)))
+def shortcut (cfg : Cfg) (st : State R) (t : Target) : Bool :=
+  match dget t.o st.table with
+  | some h =>
+    decide (h = t.cur) &&
+      (!cfg.writerCheck || decide (dget (wkey cfg t.key t.dir) st.writers = some (t.o, t.cur)))
   | none => false
 
-/-- `_check_previous_func_code` of wrapper `w`: the answer and the state afterwards. -/
-def checkPrevious (cfg : Cfg) (st : State R) (w : Nat) (o : Obj) (cur : CodeId) (named : Bool)
-    (ic : InfoCache) : Bool × State R :=
-  if shortcut cfg st o cur then (true, st)
+/-- `_check_previous_func_code` of the wrapper `t.w`: the answer and the state afterwards. -/
+def checkPrevious (cfg : Cfg) (st : State R) (t : Target) : Bool × State R :=
+  if shortcut cfg st t then (true, st)
   else
-    let fi := funcCodeInfo cfg cur ic
-    let st1 := { st with wraps := dset w (o, fi.2) st.wraps }
-    match st.code with
-    | .missing => (false, writeFuncCode st1 o cur fi.1 named)     -- IOError: no func_code.py
-    | .unreadable => (false, clearWrite st1 o cur fi.1 named)     -- ValueError: treated as changed
-    | .other => (false, clearWrite st1 o cur fi.1 named)          -- the text differs
-    | .ok old => if old = fi.1 then (true, st1) else (false, clearWrite st1 o cur fi.1 named)
+    let fi := funcCodeInfo cfg t.cur t.ic
+    let st1 := { st with wraps := dset t.w (t.wrapper fi.2) st.wraps }
+    match (dirAt st t.dir).code with
+    | .missing => (false, writeFuncCode cfg st1 t fi.1)        -- IOError: no func_code.py
+    | .unreadable => (false, clearWrite cfg st1 t fi.1)        -- ValueError: treated as changed
+    | .other => (false, clearWrite cfg st1 t fi.1)             -- the text differs
+    | .ok old => if old = fi.1 then (true, st1) else (false, clearWrite cfg st1 t fi.1)
 
 /-- `_is_in_cache_and_valid` (`contains_item` after the code check). -/
-def isInCache (cfg : Cfg) (st : State R) (w : Nat) (o : Obj) (cur : CodeId) (named : Bool)
-    (ic : InfoCache) (a : Nat) : Option R × State R :=
-  let r := checkPrevious cfg st w o cur named ic
-  (if r.1 then dget a r.2.entries else none, r.2)
+def isInCache (cfg : Cfg) (st : State R) (t : Target) (a : Nat) : Option R × State R :=
+  let r := checkPrevious cfg st t
+  (if r.1 then dget a (dirAt r.2 t.dir).entries else none, r.2)
 
 def applyDamage (c : CodeFile) (d : Damage) : CodeFile :=
   match c with
@@ -196,11 +270,12 @@ def applyDamage (c : CodeFile) (d : Damage) : CodeFile :=
     | .other => .other
 
 def step (cfg : Cfg) (sem : Src → Nat → R) (st : State R) : Op → Out R × State R
-  | .define o k named =>
-    (.done, { st with live := dset o ((o, k), named) st.live, wraps := dset o (o, (none, none)) st.wraps })
-  | .wrap w o =>
+  | .define o k named loc =>
+    (.done, { st with live := dset o ((o, k), named) st.live,
+                      wraps := dset o ⟨o, loc, loc, (none, none)⟩ st.wraps })
+  | .wrap w o key dir =>
     match dget o st.live with
-    | some _ => (.done, { st with wraps := dset w (o, (none, none)) st.wraps })
+    | some _ => (.done, { st with wraps := dset w ⟨o, key, dir, (none, none)⟩ st.wraps })
     | none => (.notLive, st)
   | .swap o c =>
     match dget o st.live with
@@ -209,28 +284,30 @@ def step (cfg : Cfg) (sem : Src → Nat → R) (st : State R) : Op → Out R × 
   | .call w a =>
     match lookup st w with
     | none => (.notLive, st)
-    | some (o, cur, named, ic) =>
-      let r := isInCache cfg st w o cur named ic a
+    | some t =>
+      let r := isInCache cfg st t a
       match r.1 with
       | some v => (.value v false, r.2)
       | none =>
-        let v := sem cur.2 a                     -- the function runs its CURRENT code
-        (.value v true, { r.2 with entries := dset a v r.2.entries })
+        let v := sem t.cur.2 a                     -- the function runs its CURRENT code
+        (.value v true,
+          { r.2 with disk := dset t.dir { dirAt r.2 t.dir with entries := dset a v (dirAt r.2 t.dir).entries } r.2.disk })
   | .check w a =>
     match lookup st w with
     | none => (.notLive, st)
-    | some (o, cur, named, ic) =>
-      let r := isInCache cfg st w o cur named ic a
+    | some t =>
+      let r := isInCache cfg st t a
       (.flag r.1.isSome, r.2)
   | .clearFn w =>
     match lookup st w with
     | none => (.notLive, st)
-    | some (o, cur, named, ic) =>
-      let fi := funcCodeInfo cfg cur ic
-      (.done, clearWrite { st with wraps := dset w (o, fi.2) st.wraps } o cur fi.1 named)
-  | .clearAll => (.done, { st with code := .missing, entries := [], table := [], writer := none })
-  | .damage d => (.done, { st with code := applyDamage st.code d })
-  | .fresh => (.done, { st with live := [], wraps := [], table := [], writer := none })
+    | some t =>
+      let fi := funcCodeInfo cfg t.cur t.ic
+      (.done, clearWrite cfg { st with wraps := dset w (t.wrapper fi.2) st.wraps } t fi.1)
+  | .clearAll d => (.done, { st with disk := dset d {} st.disk, table := [], writers := [] })
+  | .damage d dm =>
+    (.done, { st with disk := dset d { dirAt st d with code := applyDamage (dirAt st d).code dm } st.disk })
+  | .fresh => (.done, { st with live := [], wraps := [], table := [], writers := [] })
 
 /-- Outputs of a history. -/
 def run (cfg : Cfg) (sem : Src → Nat → R) : State R → List Op → List (Out R)
@@ -243,5 +320,14 @@ def exec (cfg : Cfg) (sem : Src → Nat → R) : State R → List Op → State R
   | st, op :: ops => exec cfg sem (step cfg sem st op).2 ops
 
 def init : State R := {}
+
+/-- The directory an operation works on (`none`: it touches no directory). -/
+def opDir (st : State R) : Op → Option Loc
+  | .call w _ => (lookup st w).map (·.dir)
+  | .check w _ => (lookup st w).map (·.dir)
+  | .clearFn w => (lookup st w).map (·.dir)
+  | .clearAll d => some d
+  | .damage d _ => some d
+  | _ => none
 
 end JoblibModel.FuncCode
